@@ -170,6 +170,11 @@ def run(run_, ctx):
     # ---- W / J -------------------------------------------------------------------------------------------------------
     check_tables(run_, F, helpers, "W")
     run_.floor("W", 56)
+    # ---- DC: the schema the dynamic codec is driven by is, for derived types, the one the derive writes: it must give every variant and
+    # struct the form serde's Serialize uses (incl. zero-field tuple/struct forms), else "under the type's schema" differs from the static bytes
+    import c14
+    c14.check_corpus(run_, ctx, rule="DC")
+    run_.floor("DC", 29)
     finish(run_, F, helpers, dc)
 
 
